@@ -141,12 +141,29 @@ func buildHandDoc(spec docSpec) (*document, error) {
 	case "wrong-length":
 		data := []byte("data of a stream whose declared length is seven bytes too large\n")
 		objs = append(objs, pdffile.ObjDef{Num: 4, Val: pdfsyn.DictV("Note", pdfsyn.StrV("stream dictionary string")), Stream: data, LengthOverride: iv(pdfsyn.IntV(int64(len(data) + 7)))})
+	case "hybrid", "two-tables":
+		objs = append(objs, pdffile.ObjDef{Num: 4, Val: pdfsyn.DictV("Note", pdfsyn.StrV("stream dictionary string")), Stream: []byte("BT (content) Tj ET\n")})
 	default:
 		return nil, fmt.Errorf("unknown hand-built document %q", spec.Hand)
 	}
 	objs = append(objs, pdffile.ObjDef{Num: 8, Val: pdfsyn.StrV("the object after the stream")})
 	rev := pdffile.Revision{Kind: "table", Objs: objs, Trailer: []pdfsyn.Entry{{Key: []byte("Root"), Val: pdfsyn.RefV(1, 0)}}}
-	d := &document{spec: spec, data: pdffile.Write([]pdffile.Revision{rev}, k)}
+	revs := []pdffile.Revision{rev}
+	switch spec.Hand {
+	case "hybrid":
+		// a hybrid-reference file: the objects in the object stream are listed only in the
+		// cross-reference stream that /XRefStm points to
+		revs[0].Kind = "hybrid"
+		k.ObjStm = true
+	case "two-tables":
+		// an incremental update with a classic table: the newest trailer names a new Info dictionary
+		revs[0].Objs = append(revs[0].Objs, pdffile.ObjDef{Num: 9, Val: pdfsyn.DictV("Title", pdfsyn.StrV("old title"))})
+		revs[0].Trailer = append(revs[0].Trailer, pdfsyn.Entry{Key: []byte("Info"), Val: pdfsyn.RefV(9, 0)})
+		revs = append(revs, pdffile.Revision{Kind: "table",
+			Objs:    []pdffile.ObjDef{{Num: 10, Val: pdfsyn.DictV("Title", pdfsyn.StrV("new title"))}, {Num: 8, Val: pdfsyn.StrV("the object after the stream, second edition")}},
+			Trailer: []pdfsyn.Entry{{Key: []byte("Root"), Val: pdfsyn.RefV(1, 0)}, {Key: []byte("Info"), Val: pdfsyn.RefV(10, 0)}}})
+	}
+	d := &document{spec: spec, data: pdffile.Write(revs, k)}
 	for _, n := range []uint32{2, 3, 4, 8} {
 		d.refs = append(d.refs, pdf.NewReference(n, 0))
 	}
@@ -311,7 +328,9 @@ func docSpecs(thorough bool) []docSpec {
 		docSpec{Name: "plain-raw-ends-LF", V: pdf.V1_4, Filter: 0, RawEnd: '\n'})
 	out = append(out, docSpec{Name: "handbuilt-indirect-length-filter-parms", V: pdf.V1_7, Hand: "indirect-parms"},
 		docSpec{Name: "handbuilt-no-length-data-ends-CR", V: pdf.V1_7, Hand: "no-length-crlf"},
-		docSpec{Name: "handbuilt-wrong-length", V: pdf.V1_7, Hand: "wrong-length"})
+		docSpec{Name: "handbuilt-wrong-length", V: pdf.V1_7, Hand: "wrong-length"},
+		docSpec{Name: "handbuilt-hybrid-reference", V: pdf.V1_7, Hand: "hybrid"},
+		docSpec{Name: "handbuilt-two-classic-revisions", V: pdf.V1_7, Hand: "two-tables"})
 	add("table-human", pdf.V1_7, true, 1, "")
 	add("table-rc4", pdf.V1_4, false, 1, "secret")
 	add("xrefstream-aes128", pdf.V1_7, false, 2, "secret")
@@ -500,6 +519,7 @@ func readerScenario(mode pdf.ReaderErrorHandling, chunk int) scenario {
 				return
 			}
 			rec("NewReader", fmt.Sprintf("errors=%d", len(r.Errors)), nil)
+			rec("meta", metaOf(r), nil)
 			x := pdf.NewExtractor(r)
 			walk(d, r, chunk, rec, x, "")
 			// the same calls again on the same Reader and Extractor: after a
@@ -507,6 +527,21 @@ func readerScenario(mode pdf.ReaderErrorHandling, chunk int) scenario {
 			walk(d, r, chunk, rec, x, "retry:")
 		},
 	}
+}
+
+// metaOf is what the Reader reports about the trailer: it must be the fault-free
+// answer or an I/O error, like everything else.
+func metaOf(r *pdf.Reader) string {
+	m := r.GetMeta()
+	title := ""
+	if m.Info != nil {
+		title = string(m.Info.Title)
+	}
+	pages := pdf.Reference(0)
+	if m.Catalog != nil {
+		pages = m.Catalog.Pages
+	}
+	return fmt.Sprintf("title=%q pages=%v id=%d", title, pages, len(m.ID))
 }
 
 func scanScenario() scenario {
@@ -531,6 +566,7 @@ func scanScenario() scenario {
 				return
 			}
 			rec("MakeReader", "ok", nil)
+			rec("meta", metaOf(r), nil)
 			x := pdf.NewExtractor(r)
 			walk(d, r, 0, rec, x, "")
 			walk(d, r, 0, rec, x, "retry:")
@@ -801,6 +837,11 @@ func Run(tier string) int {
 	totalK := 0
 	for _, d := range docs {
 		for _, sc := range scs {
+			if d.spec.Hand == "hybrid" && strings.HasPrefix(sc.name, "SequentialScan") {
+				// the scan does not index the members of object streams: the catalog of this
+				// document is out of its reach by design
+				continue
+			}
 			base, src := runRead(d, sc, -1, 0, nil)
 			for _, o := range base {
 				if o.err != nil {
